@@ -54,6 +54,8 @@
                                                    C06_iter_yields_inside (end of file)
      OccupiedEntry accessors, set algebra adaptors, construction
                                                    AUDIT CLOSURE section (end of file)
+     get_disjoint_mut / VacantEntry::insert / or_insert* with `inside` instead of
+       `< len`, the retain closure's references    SECOND ROUND section (end of file)
      get_disjoint_mut: every index returned is < len, indices pairwise distinct
                                                    C06_disjoint_safe
      entry API: VacantEntry::insert / or_insert return an index < len
@@ -493,4 +495,143 @@ Qed.
 Example C06_example_with_capacity :
   with_capacity_ok 4 4 = true /\ with_capacity_ok 5 4 = false /\
   cap (@new_map key vobj 4) = 4 /\ len (@new_map key vobj 4) = 0.
+Proof. vm_compute. repeat split; reflexivity. Qed.
+
+(* ========================================================================== *)
+(* AUDIT CLOSURE, SECOND ROUND for C06 (Proofs/MoreIter.v)
+
+   The second audit found that get_disjoint_mut, VacantEntry::insert and
+   or_insert were stated with `i < len` only, that or_insert_with,
+   or_insert_with_key, or_default had no C06 statement, and that nothing was
+   said about the &K / &mut V handed to the retain closure.  All statements
+   below: EVERY environment, every capacity, both build profiles.
+     inv_post w w' := WF (self w') /\ cap (self w') = cap (self w).
+       C06_disjoint_inside       every index returned is `inside` the container
+                                 (which is untouched), indices pairwise distinct
+       C06_vac_insert_inside, C06_or_insert_inside, C06_or_insert_with_inside
+       (or_default is or_insert_with (Default::default)), C06_or_insert_with_key_inside
+                                 the slot returned is inside the container AS IT IS
+                                 AFTER the call; on the panic path (full container,
+                                 panicking ==/closure/Drop) no reference is handed
+                                 out and the invariant holds
+       C06_entry_or_insert_inside  the whole chains map.entry(k).or_insert*(..)
+       C06_call_pred_inside      one call of the retain closure on slot i < len of
+                                 a WF container: the pair whose parts it receives is
+                                 the one stored in slot i, which is inside; the
+                                 value it leaves is written back into that same slot
+                                 under the same key and nothing else changes
+       C06_retain_chk_eq         retain only ever calls the closure on such slots:
+                                 retain with an explicit check "slot i is inside"
+                                 (UB otherwise) in front of EVERY closure call is the
+                                 same computation, outcome for outcome, on every WF
+                                 container (assert_inside i w = Ok tt w <-> inside
+                                 (self w) i: C06_assert_inside_ok)
+   ========================================================================== *)
+
+Theorem C06_disjoint_inside :
+  forall (K V Q T : Type) (E : env K V Q T) (ks : list Q) (w : world K V T),
+  WF (self w) ->
+  wp (get_disjoint_mut E ks)
+    (fun (r : list (option nat)) (w' : world K V T) =>
+       self w' = self w /\ length r = length ks /\
+       (forall j i : nat, nth_error r j = Some (Some i) -> inside (self w) i) /\
+       (forall j1 j2 i : nat,
+          nth_error r j1 = Some (Some i) -> nth_error r j2 = Some (Some i) -> j1 = j2))
+    (fun w' : world K V T => self w' = self w) w.
+Proof. exact (@disjoint_inside). Qed.
+Print Assumptions C06_disjoint_inside.
+
+Theorem C06_vac_insert_inside :
+  forall (K V Q T : Type) (E : env K V Q T) (debug : bool) (k : K) (v : V) (w : world K V T),
+  WF (self w) ->
+  wp (vac_insert E debug k v)
+    (fun (i : nat) (w' : world K V T) => inv_post w w' /\ inside (self w') i) (inv_post w) w.
+Proof. exact (@vac_insert_inside). Qed.
+Print Assumptions C06_vac_insert_inside.
+
+Theorem C06_or_insert_inside :
+  forall (K V Q T : Type) (E : env K V Q T) (debug : bool) (e : @entry K) (v : V) (w : world K V T),
+  WF (self w) -> entry_ok e (self w) ->
+  wp (or_insert E debug e v)
+    (fun (i : nat) (w' : world K V T) => inv_post w w' /\ inside (self w') i) (inv_post w) w.
+Proof. exact (@or_insert_inside). Qed.
+Print Assumptions C06_or_insert_inside.
+
+Theorem C06_or_insert_with_inside :
+  forall (K V Q T : Type) (E : env K V Q T) (debug : bool) (e : @entry K)
+         (f : T -> option V * T) (w : world K V T),
+  WF (self w) -> entry_ok e (self w) ->
+  wp (or_insert_with E debug e f)
+    (fun (i : nat) (w' : world K V T) => inv_post w w' /\ inside (self w') i) (inv_post w) w.
+Proof. exact (@or_insert_with_inside). Qed.
+Print Assumptions C06_or_insert_with_inside.
+
+Theorem C06_or_insert_with_key_inside :
+  forall (K V Q T : Type) (E : env K V Q T) (debug : bool) (e : @entry K)
+         (f : K -> T -> option V * T) (w : world K V T),
+  WF (self w) -> entry_ok e (self w) ->
+  wp (or_insert_with_key E debug e f)
+    (fun (i : nat) (w' : world K V T) => inv_post w w' /\ inside (self w') i) (inv_post w) w.
+Proof. exact (@or_insert_with_key_inside). Qed.
+Print Assumptions C06_or_insert_with_key_inside.
+
+Theorem C06_entry_or_insert_inside :
+  forall (K V Q T : Type) (E : env K V Q T) (debug : bool) (k : K)
+         (fin : @entry K -> M K V T nat) (w : world K V T),
+  (exists v : V, fin = fun e => or_insert E debug e v) \/
+  (exists f : T -> option V * T, fin = fun e => or_insert_with E debug e f) \/
+  (exists f : K -> T -> option V * T, fin = fun e => or_insert_with_key E debug e f) ->
+  WF (self w) ->
+  wp (e <- entry_of E k ;; fin e)
+    (fun (i : nat) (w' : world K V T) => inv_post w w' /\ inside (self w') i) (inv_post w) w.
+Proof. exact (@entry_or_insert_inside). Qed.
+Print Assumptions C06_entry_or_insert_inside.
+
+(* the retain closure *)
+Theorem C06_call_pred_inside :
+  forall (K V T : Type) (f : @pred_t K V T) (i : nat) (w : world K V T),
+  WF (self w) -> i < len (self w) ->
+  let post := fun w' : world K V T =>
+    inside (self w) i /\ inside (self w') i /\ inv_post w w' /\ len (self w') = len (self w) /\
+    exists (p : K * V) (v' : V),
+      nth_error (slots (self w)) i = Some (Some p) /\
+      v' = snd (fst (f (cb w) (fst p) (snd p))) /\
+      self w' = set_slot_m (self w) i (Some (fst p, v')) in
+  wp (call_pred f i) (fun _ : bool => post) post w.
+Proof. exact (@call_pred_inside). Qed.
+Print Assumptions C06_call_pred_inside.
+
+Theorem C06_assert_inside_ok :
+  forall (K V T : Type) (i : nat) (w : world K V T),
+  assert_inside i w = Ok tt w <-> inside (self w) i.
+Proof. exact (@assert_inside_ok). Qed.
+Print Assumptions C06_assert_inside_ok.
+
+(* retain_chk E debug f: Map::retain with `assert_inside i ;;` in front of every
+   call_pred f i (Proofs/MoreIter.v retain_loop_chk) *)
+Theorem C06_retain_chk_eq :
+  forall (K V Q T : Type) (E : env K V Q T) (debug : bool) (f : @pred_t K V T) (w : world K V T),
+  WF (self w) -> retain E debug f w = retain_chk E debug f w.
+Proof. exact (@retain_chk_eq). Qed.
+Print Assumptions C06_retain_chk_eq.
+
+(* non-vacuity: get_disjoint_mut for classes 7 and 5 on m3 returns slots 2 and 0;
+   entry(class 6).or_insert returns slot 1; retain with the closure that removes
+   everything runs identically with the checks *)
+Example C06_example_round2 :
+  match get_disjoint_mut (env_map C06_sc0) [QCls 7; QCls 5] (w_of m3) with
+  | Ok r w' => r = [Some 2; Some 0] /\ self w' = m3
+  | _ => False
+  end /\
+  match (e <- entry_of (env_map C06_sc0) (k_ 9 6) ;; or_insert (env_map C06_sc0) false e (v_ 10 10))
+          (w_of m3) with
+  | Ok i w' => i = 1 /\ len (self w') = 3
+  | _ => False
+  end /\
+  retain (env_map C06_sc0) false pred_false (w_of m3)
+  = retain_chk (env_map C06_sc0) false pred_false (w_of m3) /\
+  match retain_chk (env_map C06_sc0) false pred_false (w_of m3) with
+  | Ok _ w' => len (self w') = 0
+  | _ => False
+  end.
 Proof. vm_compute. repeat split; reflexivity. Qed.
